@@ -158,6 +158,10 @@ func (r *Reader) Read(buf []byte) (int, error) {
 			r.stut++
 			if r.stut == 1 && r.c.T.Bool(1, 4) {
 				r.burst = 3 + r.c.T.Int(5)
+				if r.c.T.Bool(1, 12) {
+					r.burst = 100 + r.c.T.Int(40) // a long but finite run (bufio gives up after 100)
+					r.c.Count("fault.stutter-burst(100+ zero-length reads in a row)")
+				}
 				r.stut = 3
 				r.c.Count("fault.stutter-burst(4..8 zero-length reads in a row)")
 			}
